@@ -33,7 +33,7 @@ def cons_term(c, sh):
 def client_term(c, sh):
     cons = lst(c.get("cons") or [], lambda e: "(%s, %s)" % (height(e["h"]), cons_term(e, sh)))
     return "(mkClient %s %s %s %s %s %s %s %s %s %s %s)" % (
-        hx(c["chain"]), N(c["tl"][0]), N(c["tl"][1]), Z(c["tp"]), Z(c["ub"]), Z(c["dr"]),
+        hx(c.get("chain", "")), N(c["tl"][0]), N(c["tl"][1]), Z(c["tp"]), Z(c["ub"]), Z(c["dr"]),
         height(c["fz"]), height(c["lt"]), hx(c["specs"]), lst(c["up"], hx), cons)
 
 STATUS = {"Active": "Active", "Frozen": "Frozen", "Expired": "Expired", "Unknown": "Unknown"}
@@ -289,5 +289,212 @@ KINDS = {
     "newtrusting": dict(props=["C25"], enc=enc_newtrusting, spec=spec_newtrusting, exact=False),
     "match": dict(props=["C25"], enc=enc_match, spec=spec_match, exact=True),
 }
+
+# ------------------------------------------------------------------------------------------- C24: light cases
+
+class Ren:
+    """injective renaming of public keys (32 bytes) and signatures (64 bytes): neither length is inspected
+    for keys; signatures keep a length in 1..64"""
+    def __init__(self):
+        self.m = {}
+    def pk(self, h):
+        if len(h) != 64:
+            return hx(h)
+        return self._r("k", h)
+    def sig(self, h):
+        if len(h) != 128:
+            return hx(h)
+        return self._r("s", h)
+    def _r(self, pre, h):
+        if (pre, h) not in self.m:
+            self.m[(pre, h)] = ("%s%d" % (pre, len(self.m))).encode().hex()
+        return hx(self.m[(pre, h)])
+
+def raw(h):
+    return hx(h or "")
+
+def bid_term(x):
+    return "(mkBID %s %s %s)" % (hx(x[0]), N(x[1]), hx(x[2]))
+
+def hdr_term(h):
+    return "(mkHdr %s %s %s %s %s %s %s %s %s %s %s %s %s %s %s)" % (
+        N(h["block"]), N(h["app"]), hx(h["chain"]), Z(h["height"]), Z(h["time"]), bid_term(h["last"]),
+        hx(h["lastcommit"]), hx(h["data"]), hx(h["vals"]), hx(h["nextvals"]), hx(h["cons"]), hx(h["apphash"]),
+        hx(h["results"]), hx(h["evidence"]), hx(h["proposer"]))
+
+def val_term(v, rn):
+    return "(mkVal %s %s %s)" % (hx(v["addr"]), rn.pk(v["pk"]), Z(v["power"]))
+
+def valset_term(vs, rn):
+    if vs is None:
+        return "None"
+    return "(Some (mkVS %s %s))" % (lst(vs["vals"], lambda v: val_term(v, rn)), opt(vs["prop"], lambda v: val_term(v, rn)))
+
+def commit_term(c, rn):
+    return "(mkCommit %s %s %s %s)" % (Z(c["height"]), Z(c["round"]), bid_term(c["bid"]),
+                                       lst(c["sigs"], lambda x: "(mkSig %s %s %s %s)" % (N(x[0]), hx(x[1]), Z(x[2]), rn.sig(x[3]))))
+
+def th_term(h, rn):
+    return "(mkTH %s %s %s %s %s)" % (hdr_term(h["hdr"]), commit_term(h["commit"], rn), valset_term(h["vals"], rn),
+                                      height(h["trusted"]), valset_term(h["tvals"], rn))
+
+def ltables_term(t, rn):
+    sigs = lst(t["sigs"] or [], lambda x: "(%s, %s, %s)" % (rn.pk(x[0]), hx(x[1]), rn.sig(x[2])))
+    vh = lst(t["vhash"] or [], lambda x: "(%s, %s)" % (lst(x[0], lambda v: val_term(v, rn)), hx(x[1])))
+    hh = lst(t["hhash"] or [], lambda x: "(%s, %s)" % (hdr_term(x[0]), hx(x[1])))
+    ad = lst(t["addr"] or [], lambda x: "(%s, %s)" % (rn.pk(x[0]), hx(x[1])))
+    return "(mkLT %s %s %s %s)" % (sigs, vh, hh, ad)
+
+def enc_lheader(r):
+    rn = Ren()
+    i = r["in"]
+    return "LightCase (LHeader %s %s %s %s %s %s)" % (ltables_term(i["tables"], rn), client_term(i["client"], raw), Z(i["now"]),
+                                                     th_term(i["h"], rn), RES[r["out"][0]], RES[r["out"][1]])
+
+def enc_lmisb(r):
+    rn = Ren()
+    i = r["in"]
+    return "LightCase (LMisb %s %s %s %s %s %s %s %s)" % (ltables_term(i["tables"], rn), client_term(i["client"], raw), Z(i["now"]),
+                                                         th_term(i["h1"], rn), th_term(i["h2"], rn), RES[r["out"][0]], RES[r["out"][1]], b(r["out"][2]))
+
+# ---- monitors: the property text evaluated on the recorded structure ----
+import re as _re
+_REV = _re.compile(rb"^.*[^\n-]-{1}[1-9][0-9]*$")
+
+def revision_of(chain_hex):
+    s = bytes.fromhex(chain_hex)
+    if not _REV.match(s):
+        return 0
+    return int(s.rsplit(b"-", 1)[1])
+
+def set_revision(chain_hex, rev):
+    s = bytes.fromhex(chain_hex)
+    if not _REV.match(s):
+        return chain_hex
+    return (s.rsplit(b"-", 1)[0] + b"-" + str(rev).encode()).hex()
+
+def real_vals_hash(tables, vs):
+    if vs is None:
+        return None
+    for vals, h in tables["vhash"] or []:
+        if vals == vs["vals"]:
+            return h
+    return None
+
+def valid_sig(tables, pk, chain_hex, sig):
+    return [pk, chain_hex, sig] in (tables["sigs"] or [])
+
+def own_signed_power(tables, h, chain_hex):
+    """voting power of the header's own validators with a valid commit signature for this header"""
+    vs = h["vals"]
+    if vs is None:
+        return 0, 0
+    total = sum(int(v["power"]) for v in vs["vals"])
+    got = 0
+    for v, s in zip(vs["vals"], h["commit"]["sigs"]):
+        if s[0] == 2 and s[1] == v["addr"] and valid_sig(tables, v["pk"], chain_hex, s[3]):
+            got += int(v["power"])
+    return got, total
+
+def trusted_signed_power(tables, h, chain_hex):
+    """voting power of the distinct trusted validators that validly signed the commit"""
+    tv = h["tvals"]
+    if tv is None:
+        return 0, 0
+    total = sum(int(v["power"]) for v in tv["vals"])
+    got = 0
+    for v in tv["vals"]:
+        if any(s[0] == 2 and s[1] == v["addr"] and valid_sig(tables, v["pk"], chain_hex, s[3]) for s in h["commit"]["sigs"]):
+            got += int(v["power"])
+    return got, total
+
+def header_conditions(i, h, chain_hex, need_own, need_window):
+    """why header h does NOT meet the acceptance conditions of the property (None if it meets them)"""
+    c, t, now = i["client"], i["tables"], int(i["now"])
+    cm = cons_map(c)
+    tr = hpair(h["trusted"])
+    if tr not in cm:
+        return "no stored consensus state at the trusted height %s" % (tr,)
+    ts, _, nvh = cm[tr][0], cm[tr][1], cm[tr][2]
+    if real_vals_hash(t, h["tvals"]) != nvh:
+        return "trusted validators do not hash to the trusted consensus state's next-validators hash"
+    if not now < int(ts) + int(c["tp"]):
+        return "trusted consensus state is outside the trusting period"
+    tgot, ttot = trusted_signed_power(t, h, chain_hex)
+    num, den = int(c["tl"][0]), int(c["tl"][1])
+    adjacent = need_window and int(h["hdr"]["height"]) == tr[1] + 1
+    if need_window:
+        if revision_of(h["hdr"]["chain"]) != tr[0]:
+            return "header revision differs from the trusted height's revision"
+        if not int(h["hdr"]["height"]) > tr[1]:
+            return "header height not above the trusted height"
+        if not int(ts) < int(h["hdr"]["time"]) < now + int(c["dr"]):
+            return "header time not within (trusted time, now + drift)"
+    if need_own:
+        got, tot = own_signed_power(t, h, chain_hex)
+        if real_vals_hash(t, h["vals"]) != h["hdr"]["vals"]:
+            return "validator set does not hash to the header's validators hash"
+        if not 3 * got > 2 * tot:
+            return "own validator set signed with %d of %d voting power (need > 2/3)" % (got, tot)
+    if adjacent:
+        if h["hdr"]["vals"] != nvh:
+            return "adjacent header's validators hash differs from the trusted next-validators hash"
+    elif i.get("valid", True):
+        # (for client states that pass ClientState.Validate; others cannot be created)
+        if not tgot * den >= ttot * num:
+            return "trusted validators signed with %d of %d voting power (trust level %d/%d)" % (tgot, ttot, num, den)
+    return None
+
+MUST_REJECT = {"field-time", "field-apphash", "field-nextvals", "field-height", "field-chain", "field-data", "field-rehash",
+               "commit-round", "commit-height", "commit-parts", "vals-power", "vals-extra", "tvals-wrong", "tvals-power",
+               "trusted-missing", "trusted-revision", "revision"}
+
+def spec_lheader(r):
+    i = r["in"]
+    basic, verdict = r["out"]
+    if verdict == "ok":
+        why = header_conditions(i, i["h"], i["client"]["chain"], True, True)
+        if why:
+            return "header accepted although " + why
+        if r.get("tag") in MUST_REJECT:
+            return "header accepted after mutation %s of a signed field / validator set / trusted height" % r["tag"]
+
+def spec_lmisb(r):
+    i = r["in"]
+    basic, verdict, frozen, upd = r["out"]
+    if frozen:
+        for name in ("h1", "h2"):
+            h = i[name]
+            chain = set_revision(i["client"]["chain"], revision_of(h["hdr"]["chain"]))
+            why = header_conditions(i, h, chain, False, False)
+            if why:
+                return "misbehaviour froze the client although for %s: %s" % (name, why)
+            if basic == "ok":
+                got, tot = own_signed_power(i["tables"], h, h["hdr"]["chain"])
+                if not 3 * got > 2 * tot:
+                    return "valid misbehaviour message whose %s has only %d of %d of its own voting power" % (name, got, tot)
+
+def nontrivial_l(r):
+    return True
+
+KINDS["lheader"] = dict(props=["C24"], enc=enc_lheader, spec=spec_lheader, exact=False)
+KINDS["lmisb"] = dict(props=["C24"], enc=enc_lmisb, spec=spec_lmisb, exact=False)
+
+def enc_validate(r):
+    return "ValidateCase %s %s" % (client_term(r["in"]["c"], raw), RES[r["out"]])
+
+INT64_MAX = 2 ** 63 - 1
+
+def spec_validate(r):
+    """regression of F9: a tendermint client whose trust level does not fit int64 must not validate / be created"""
+    c = r["in"]["c"]
+    if r["out"] == "ok" and (int(c["tl"][0]) > INT64_MAX or int(c["tl"][1]) > INT64_MAX):
+        return "client state with trust level %s/%s accepted (%s): CometBFT converts it to int64" % (c["tl"][0], c["tl"][1], r["in"]["via"])
+    if r["out"] == "ok":
+        num, den = int(c["tl"][0]), int(c["tl"][1])
+        if den == 0 or num > den or 3 * num < den:
+            return "client state with trust level %d/%d outside [1/3, 1] accepted" % (num, den)
+
+KINDS["validate"] = dict(props=["C24", "C25"], enc=enc_validate, spec=spec_validate, exact=False)
 
 KNOWN = {}
